@@ -118,7 +118,7 @@ func genAttrKV(t *rapid.T, attrs []string) (string, string) {
 // lookAlike replaces one ASCII letter by a non-ASCII character that Go's strings.ToLower /
 // EqualFold (but no HTML parser) folds into it: U+0130 -> i, U+212A -> k, U+017F -> s.
 func lookAlike(t *rapid.T, s string) string {
-	if rapid.IntRange(0, 11).Draw(t, "lookalike") != 0 {
+	if rapid.IntRange(0, 7).Draw(t, "lookalike") != 0 {
 		return s
 	}
 	pairs := [][2]string{{"i", "\u0130"}, {"k", "\u212a"}, {"s", "\u017f"}, {"I", "\u0130"}}
